@@ -44,8 +44,6 @@ Local Notation hermitian := (hermitian R rconj).
 Local Notation def_expect := (def_expect R r0 radd rmul).
 Local Notation def_m2 := (def_m2 R r0 radd rmul).
 Local Notation def_fidelity := (def_fidelity R r0 radd rmul rconj).
-Local Notation obs_m2_sq := (obs_m2_sq R r0 radd rmul rconj).
-Local Notation obs_var_sub := (obs_var_sub R r0 radd rmul rconj).
 Local Notation obs_fidelity := (obs_fidelity R r0 radd rmul rconj).
 
 (** ** the involution on constants *)
@@ -231,23 +229,6 @@ Proof.
   intros k Hk. apply hermitian_dag with (D := D); assumption.
 Qed.
 
-(** code: [sqrt(Re <H psi|H psi>^2-ish)]; here: the quantity under the root is
-    the squared modulus of the documented second moment [Tr (rho H^2)] *)
-Theorem second_moment_pure : forall D H v, hermitian D H ->
-  obs_m2_sq D H (Ket v) = nrm2 (def_m2 D H (rho_of (Ket v))).
-Proof.
-  intros D H v HH. unfold ObsLin.obs_m2_sq, ObsLin.def_m2. simpl.
-  rewrite inner_HH by assumption. rewrite expect_ket_trace. reflexivity.
-Qed.
-
-(** the term subtracted by [EnergyVariance] is the squared modulus of the energy *)
-Theorem variance_sub_pure : forall D H v,
-  obs_var_sub D H (Ket v) = nrm2 (def_expect D H (rho_of (Ket v))).
-Proof.
-  intros. unfold ObsLin.obs_var_sub, ObsLin.def_expect. simpl.
-  rewrite expect_ket_trace. reflexivity.
-Qed.
-
 (** and that energy is self-conjugate, so the squared modulus is the square *)
 Theorem energy_pure_real : forall D H v, hermitian D H ->
   rconj (def_expect D H (rho_of (Ket v))) = def_expect D H (rho_of (Ket v)).
@@ -269,8 +250,8 @@ Proof.
   rewrite <- expect_ket_trace. apply expect_ket_real. apply mmul_hermitian_sq. assumption.
 Qed.
 
-(** ** what a correct second moment looks like for BOTH kinds of state: the
-    expectation of the identity on [H rho H^dag] (this is the proposed fix) *)
+(** ** EnergySecondMoment for BOTH kinds of state: the expectation of the
+    identity on [H rho H^dag] is [Tr (rho H^2)] *)
 Lemma mvec_delta : forall D v i, i < D -> mvec D delta v i = v i.
 Proof.
   intros. unfold ObsLin.mvec, ObsLin.delta.
@@ -297,6 +278,30 @@ Proof.
     2:{ intros k Hk. rewrite mmul_assoc. apply mmul_ext; [|reflexivity].
         intros l Hl. apply hermitian_dag with (D := D); assumption. }
     apply trace_cyclic.
+Qed.
+
+(** [expect] only looks at the entries inside the dimension *)
+Lemma expect_ext : forall D A B s, (forall i j, i < D -> j < D -> A i j = B i j) ->
+  expect D A s = expect D B s.
+Proof.
+  intros D A B s HAB. destruct s as [v|M]; simpl.
+  - apply inner_ext; [reflexivity|]. intros k Hk. apply mvec_ext; [|reflexivity].
+    intros l Hl. apply HAB; assumption.
+  - apply trace_ext. intros k Hk. apply mmul_ext; [|reflexivity].
+    intros l Hl. apply HAB; assumption.
+Qed.
+
+(** [Tr(rho A)] is self-conjugate for Hermitian [rho] and [A]: taking the real
+    part, as the code does, loses nothing *)
+Theorem def_expect_real : forall D A rho, hermitian D A -> hermitian D rho ->
+  rconj (def_expect D A rho) = def_expect D A rho.
+Proof.
+  intros D A rho HA Hr. unfold ObsLin.def_expect, ObsLin.trace, ObsLin.mmul.
+  rewrite sumn_conj.
+  rewrite (sumn_ext D _ (fun i => sumn D (fun k => rho k i * A i k))).
+  2:{ intros i Hi. rewrite sumn_conj. apply sumn_ext. intros k Hk.
+      rewrite conj_mul, (Hr k i), (HA i k) by assumption. reflexivity. }
+  rewrite sumn_swap. reflexivity.
 Qed.
 
 (** ** Fidelity with a pure target *)
